@@ -191,40 +191,34 @@ def run(chk):
         chk.check(not many and not one, 'C16-R3', RA, Q, 'a second known raw column raises; otherwise colname is the one found', f'{names}',
                   '; '.join(f'file with {list(w[0])}: detection gives {w[1]}, expected {w[2]}' for w in (many + one)[:2]), node=Dt)
         chk.check(not none, 'C16-R3', RA, Q, 'no known raw column raises', '', f'a file without any known raw column gives {none[0][1] if none else None} instead of ValueError', node=Dt)
-    # ---- R6 branch exhaustiveness
-    chain = None
-    for n in walk_no_nested(fn):
-        if isinstance(n, ast.If) and isinstance(n.test, ast.Compare) and unparse(n.test.left) == 'colname' and isinstance(n.test.ops[0], ast.Eq):
-            chain = n
-            break
-    if chain is None:
-        raise AnalysisError('read_asdf: decode branch chain not found')
-    branches = []
-    c = chain
-    while True:
-        branches.append((c.test, c.body))
-        if len(c.orelse) == 1 and isinstance(c.orelse[0], ast.If):
-            c = c.orelse[0]
-        else:
-            if c.orelse:
-                branches.append((None, c.orelse))
-            break
+    # ---- R6 branch exhaustiveness: for each raw column name the conditions on `colname` are decided (constant propagation),
+    # conditions on anything else are followed on both sides; exactly one decoder is reached and the row count is bound
+    def reach(stmts, cn, calls, nread):
+        for s_ in stmts:
+            if isinstance(s_, ast.If):
+                c = ev_cond(s_.test, {'colname': cn}) if 'colname' in names_in(s_.test) else None
+                if c is True:
+                    reach(s_.body, cn, calls, nread)
+                elif c is False:
+                    reach(s_.orelse, cn, calls, nread)
+                else:
+                    reach(s_.body, cn, calls, nread)
+                    reach(s_.orelse, cn, calls, nread)
+                continue
+            if isinstance(s_, (ast.With, ast.For, ast.While, ast.Try)):
+                reach(s_.body, cn, calls, nread)
+                continue
+            for x in ast.walk(s_):
+                if isinstance(x, ast.Call) and dotted(x.func).startswith('unpack_'):
+                    calls.append(dotted(x.func))
+            if isinstance(s_, ast.Assign) and any(unparse(t) == 'nread' for t in s_.targets):
+                nread.append(s_)
     for cn in (names or ()):
-        hits = []
-        for i, (t, body) in enumerate(branches):
-            r = True if t is None else ev_cond(t, {'colname': cn})
-            if r:
-                hits.append(i)
-                break           # if/elif: first true branch wins
-        okb = len(hits) == 1
-        nread_def = okb and any(isinstance(s, ast.Assign) and unparse(s.targets[0]) == 'nread' for s in branches[hits[0]][1])
-        decoder = ''
-        if okb:
-            calls = [dotted(x.func) for s in branches[hits[0]][1] for x in ast.walk(s) if isinstance(x, ast.Call) and dotted(x.func).startswith('unpack_')]
-            decoder = calls[0] if calls else ''
+        calls, nread = [], []
+        reach(fn.body, cn, calls, nread)
         wantdec = {'rvint': 'unpack_rvint', 'pack9': 'unpack_pack9', 'packedpid': 'unpack_pids', 'pid': 'unpack_pids'}.get(cn)
-        chk.check(okb and nread_def and decoder == wantdec, 'C16-R6', RA, Q, f'raw column {cn!r} -> {decoder}', '',
-                  f'raw column {cn!r}: matching branches {hits}, decoder {decoder!r} (expected {wantdec}), row count defined={nread_def}', node=chain)
+        chk.check(calls == [wantdec] and len(nread) == 1, 'C16-R6', RA, Q, f'raw column {cn!r} -> {wantdec}', '',
+                  f'raw column {cn!r}: decoders reached {calls} (expected exactly [{wantdec}]), row count bound {len(nread)} time(s)', node=fn)
     # ---- R4
     for dec in ('unpack_rvint', 'unpack_pack9'):
         ok, why, node_ = decoder_call(src, dec)
@@ -281,7 +275,13 @@ def decoder_call(src, dec):
             st = st._parent
         blk = st._parent
         counts = [t.id for t in st.targets[0].elts] if isinstance(st, ast.Assign) and isinstance(st.targets[0], ast.Tuple) and all(isinstance(t, ast.Name) for t in st.targets[0].elts) else []
-        nrd = [x for x in (blk.body if st in getattr(blk, 'body', []) else getattr(blk, 'orelse', [])) if isinstance(x, ast.Assign) and unparse(x.targets[0]) == 'nread' and x.lineno > st.lineno]
+        # the row count is taken after the call: in the call's own block or, when the call sits in an inner choice of
+        # decoder, in the enclosing block of the same branch
+        nrd, cur_, blk_ = [], st, blk
+        while blk_ is not None and blk_ is not fn and not nrd and not isinstance(blk_, ast.With):
+            sibs = blk_.body if cur_ in getattr(blk_, 'body', []) else getattr(blk_, 'orelse', [])
+            nrd = [x for x in sibs if isinstance(x, ast.Assign) and unparse(x.targets[0]) == 'nread' and x.lineno > st.lineno]
+            cur_, blk_ = blk_, getattr(blk_, '_parent', None)
         oknr = len(counts) == 2 and len(nrd) == 1 and unparse(nrd[0].value).replace(' ', '') in (f'max({counts[0]},{counts[1]})', f'max({counts[1]},{counts[0]})')
         okargs = kw.get('float_dtype') == 'dtype' and kw.get('posout') == "table['pos'] if 'pos' in load else False" and \
             kw.get('velout') == "table['vel'] if 'vel' in load else False" and pos[:2] == ['data', "header['BoxSize']"]
